@@ -441,7 +441,7 @@ func (x *Exec) Assert(cond *smt.Term, label string) {
 		return
 	}
 	m := x.fullModel()
-	if x.NewLifter != nil {
+	if x.NewLifter != nil && x.LiftMode != "R" {
 		// the model must also satisfy the unlifted terms under real IEEE
 		// evaluation; otherwise the lifted encoding is wrong for this input
 		for _, t := range append(append([]*smt.Term{}, x.pc...), neg) {
